@@ -376,6 +376,17 @@ def known_finding_premature(chk, exe):
         s.close()
 
 
+def strict_http_counterexample(chk):
+    """the strict statement CauseOnOwnExchange is violated by the DESIGN: TLC must find the counterexample (else the finding's model side is gone)"""
+    d = vlib.scratch("c13mc")
+    cfg = os.path.join(d, "http_strict.cfg")
+    tlc_cfg(cfg, "MCSpec", dict(N=2, SndTo=1, RcvTo=1, ConTo=1, MaxReq=2, R=2, Http=True), ["StrictOwnExchange"], "  MaxClock = 1\n  MaxWire = 2\n  MaxMsgs = 1\nVIEW View\n")
+    r = vlib.run_tlc("MC_AsyncService.tla", cfg, timeout=900, xmx="16g")
+    chk.add(strict_http_invariant="violated as expected (counterexample of %s states)" % r.out.count("State ") if r.violation else "NOT violated")
+    if not r.violation:
+        raise vlib.CheckError("AsyncService.tla no longer violates the strict HTTP statement CauseOnOwnExchange: finding F-C13-4 has no model side any more")
+
+
 def known_finding_http_fanout(chk, exe):
     """F-C13-4: over HTTP every request has its own connection, yet an unauthenticated PDU in the body of ONE exchange fails every request that
        is waiting for a response (strict invariant CauseOnOwnExchange of AsyncService.tla); reproduced on the real code."""
@@ -427,6 +438,7 @@ def run(chk, tier, seed):
         if gi == 1 and len(starts) > 1:
             chk.sample(dict(kind="recorded schedule (first scenario of group %d)" % gi, options=o, events=evs[:starts[1] - 1][:60]))
     known_finding_premature(chk, exe)
+    strict_http_counterexample(chk)
     known_finding_http_fanout(chk, exe)
     chk.add(evaluations=total_ev, distinct_nontrivial=int(chk.cov.get("traces_validated_against_impl", 0)),
             rule="seeded random schedules of add / run / server message (valid, wrong hash, duplicate, stale generation, unknown id, error status, "
